@@ -35,17 +35,6 @@ func prepare() {
 		})
 }
 
-func encode(sh shape, tx text) *az.Symbol {
-	sym, err := az.EncodeBits(tx.Bits, sh.Compact, sh.Layers)
-	if err != nil {
-		panic(fmt.Sprintf("C11 harness: reference encoder refused %v %s: %v", sh, tx.Name, err))
-	}
-	if sym.CheckWords < 3 {
-		panic(fmt.Sprintf("C11 harness: %v %s has only %d check words", sh, tx.Name, sym.CheckWords))
-	}
-	return sym
-}
-
 // ------------------------------------------------------------------ (e) HighLevelDecode
 
 func runHighLevel() {
@@ -53,19 +42,34 @@ func runHighLevel() {
 		sh shape
 		ts []text
 	}
-	jobs := []job{{shape{false, 32}, drivers()}}
+	var jobs []job
+	ds := drivers()
+	for lo := 0; lo < len(ds); lo += 16 {
+		hi := lo + 16
+		if hi > len(ds) {
+			hi = len(ds)
+		}
+		jobs = append(jobs, job{shape{false, 32}, ds[lo:hi]})
+	}
+	run := func(name string) {
+		chk.Range(name, len(jobs),
+			func(i int) string {
+				return fmt.Sprint("highlevel ", jobs[i].sh, " ", jobs[i].ts[0].Name, " +", len(jobs[i].ts)-1)
+			},
+			func(l *mc.Local, i int) {
+				for _, tx := range jobs[i].ts {
+					for pad := 0; pad <= 11; pad++ {
+						checkHighLevel(l, jobs[i].sh, tx, pad)
+					}
+				}
+			})
+	}
+	run(fmt.Sprintf("(e) HighLevelDecode: every driver script of the family (%d scripts, all classes) x 0..11 appended pad one-bits", len(ds)))
+	jobs = nil
 	for _, s := range sets {
 		jobs = append(jobs, job{s.sh, append(append([]text{}, s.fills...), s.damage...)})
 	}
-	chk.Range("(e) HighLevelDecode: every script of the family (drivers of all classes + fill texts of all 36 shapes) x 0..11 appended pad one-bits", len(jobs),
-		func(i int) string { return fmt.Sprint("highlevel ", jobs[i].sh, len(jobs[i].ts)) },
-		func(l *mc.Local, i int) {
-			for _, tx := range jobs[i].ts {
-				for pad := 0; pad <= 11; pad++ {
-					checkHighLevel(l, jobs[i].sh, tx, pad)
-				}
-			}
-		})
+	run("(e) HighLevelDecode: the fill texts (half, full, damage bases) of all 36 shapes x 0..11 appended pad one-bits")
 	chk.Sample("highlevel", rcase{Sub: "highlevel", Layers: 32, Text: "latch/Digit-Punct", Pad: 7})
 }
 
@@ -108,7 +112,7 @@ func runDecode() {
 			j := jobs[i]
 			sh := sets[j.si].sh
 			for _, tx := range all[j.si][j.lo:j.hi] {
-				sym := encode(sh, tx)
+				sym := encodeRef(sh, tx)
 				checkDecode(l, sh, sym, tx)
 				if strings.HasPrefix(tx.Name, "fill/full") {
 					if sym.DataWords == sh.maxData() {
@@ -172,7 +176,7 @@ func runReader() {
 		func(l *mc.Local, i int) {
 			j := jobs[i]
 			sh := sets[j.si].sh
-			sym := encode(sh, j.tx)
+			sym := encodeRef(sh, j.tx)
 			for _, q := range j.quiets {
 				for rot := 0; rot < 4; rot++ {
 					checkRead(l, sh, sym, j.tx, rot, j.scale, q, q >= 2)
@@ -293,7 +297,7 @@ func runDamage() {
 		func(l *mc.Local, i int) {
 			s := sets[jobs[i].si]
 			sh, tx := s.sh, s.damage[jobs[i].ti]
-			sym := encode(sh, tx)
+			sym := encodeRef(sh, tx)
 			if !checkDecode(l, sh, sym, tx) {
 				return
 			}
@@ -372,7 +376,7 @@ func runDamage() {
 					tx = d
 				}
 			}
-			sym := encode(sh, tx)
+			sym := encodeRef(sh, tx)
 			mods := sym.WordModules()
 			for p := j.lo; p < j.hi; p++ {
 				for repl := 0; repl < 2; repl++ {
@@ -427,6 +431,18 @@ func runModeMessage() {
 	if !chk.Quick() {
 		scales = []int{2, 3, 4, 5}
 	}
+	// baseline: the uncorrupted symbols must read (otherwise the failure is not about the mode message)
+	base := map[string]bool{}
+	bl := chk.NewLocal()
+	for _, sh := range []shape{{true, 2}, {false, 5}} {
+		tx := fillText(sh, sh.totalWords()/2, 0, "fill/half/v0")
+		for _, scale := range scales {
+			for rot := 0; rot < 4; rot++ {
+				base[fmt.Sprint(sh, scale, rot)] = checkRead(bl, sh, encodeRef(sh, tx), tx, rot, scale, 2, true)
+			}
+		}
+	}
+	bl.Merge()
 	chk.Range(fmt.Sprintf("(d) mode message: compact-L2 and full-L5, every nibble x all 15 xor values; every nibble pair x 3x3 xor menu; full: every nibble triple x 3 value vectors; read through AztecReader at scales %v, quiet 2, 4 rotations", scales), len(jobs),
 		func(i int) string { return fmt.Sprint("modemsg ", jobs[i].sh, jobs[i].nib) },
 		func(l *mc.Local, i int) {
@@ -434,6 +450,9 @@ func runModeMessage() {
 			tx := fillText(j.sh, j.sh.totalWords()/2, 0, "fill/half/v0")
 			for _, scale := range scales {
 				for rot := 0; rot < 4; rot++ {
+					if !base[fmt.Sprint(j.sh, scale, rot)] {
+						continue
+					}
 					checkModeMsg(l, j.sh, tx, rcase{Sub: "modemsg", Compact: j.sh.Compact, Layers: j.sh.Layers, Text: tx.Name, Nib: j.nib, Rot: rot, Scale: scale, Quiet: 2})
 				}
 			}
@@ -442,7 +461,7 @@ func runModeMessage() {
 }
 
 func checkModeMsg(l *mc.Local, sh shape, tx text, c rcase) {
-	sym := encode(sh, tx)
+	sym := encodeRef(sh, tx)
 	m := make([][]bool, len(sym.Matrix))
 	for i := range m {
 		m[i] = append([]bool{}, sym.Matrix[i]...)
@@ -489,7 +508,7 @@ func replay() {
 		fmt.Println("ok:", checkHighLevel(l, sh, tx, c.Pad))
 		return
 	}
-	sym := encode(sh, tx)
+	sym := encodeRef(sh, tx)
 	fmt.Printf("symbol %v: %d data + %d check words of %d bits; expected text %q\n", sh, sym.DataWords, sym.CheckWords, sym.WordSize, clip(tx.Want, 200))
 	switch c.Sub {
 	case "decode":
